@@ -12,6 +12,7 @@ import (
 type FOpts struct {
 	MinGets, MaxGets int
 	Keys             int
+	Collide          bool // sometimes make the first two keys an xxhash64 collision pair
 	FaultProb        float64
 	Cells            bool // contexts with TTL cells and builder TTL updates
 	Skip             bool // SkipRead contexts
@@ -78,6 +79,14 @@ func GenFailover(t *testing.T, rng *rand.Rand, o FOpts) FOut {
 		init[i] = states[rng.Intn(len(states))]
 	}
 
+	collide := false
+
+	if o.Collide && nk >= 2 && rng.Intn(2) == 0 {
+		// two distinct keys with the same 64-bit hash: a collision may cost a miss, never a mix-up
+		keys[0], keys[1] = CollisionPair(rng)
+		collide = true
+	}
+
 	ng := o.MinGets + rng.Intn(o.MaxGets-o.MinGets+1)
 
 	var (
@@ -118,6 +127,13 @@ func GenFailover(t *testing.T, rng *rand.Rand, o FOpts) FOut {
 			tok++
 			errn++
 			g.Plan = BuildPlan{Ok: rng.Float64() >= o.FailRate, Val: tok, Err: errn}
+
+			if collide && string(g.Key) == string(keys[0]) {
+				// The failure cache is a ShardedMap too: cached failures of two colliding keys would evict each other
+				// (a collision may cost a miss, C09), which the model's failure cache, keyed by the key itself, does
+				// not represent. Builds of the first key of a colliding pair therefore do not fail.
+				g.Plan.Ok = true
+			}
 
 			if o.Cells && rng.Intn(2) == 0 {
 				g.HasCell = true
